@@ -609,6 +609,11 @@ func (tdsChan *Channel) WritePacket(packet *Packet) {
 			if tdsChan.queueRx.IsEOM() {
 				// And queue is EOM - reset queue
 				tdsChan.queueRx.Reset()
+				// The DONE that ended this response must not decide
+				// whether the next response needs a final DONE.
+				if _, ok := tdsChan.lastPkgRx.(*DonePackage); ok {
+					tdsChan.lastPkgRx = nil
+				}
 			} else {
 				// Roll back position and return.
 				tdsChan.queueRx.SetPosition(curPacket, curData)
